@@ -134,8 +134,8 @@ def run(ctx):
             ctx.compare(case, 'impl', 'model', kind='C06-model-mismatch', holds=lambda: True, extra={'detail': detail})
         if nontriv:
             ctx.sample({'ids': c['ids'], 'nsub': c['nsub'], 'values_subset0': c['val_toks'][0][:12]}, limit=3)
-    ctx.partial = ['encoder side (joint encode = concatenation of single encodes) is checked differentially only; '
-                   'the decoder theorems C06_decode_subsets_split/join/suffix_independent are complete']
+    ctx.partial = ['hierarchical structure of a subset (wiring) is a function of that subset\'s flat lists (C09 theorems); '
+                   'its independence is observed on the implementation, joint vs single']
     ctx.assumptions = ['the model describes /repo after "fix: reset operator and bitmap state at the start of each subset"',
                        'NestedJsonRenderer output compared between joint and single decodes only when wiring succeeds on both']
 
